@@ -81,6 +81,7 @@ func (s *sock) WriteJSON(v interface{}) error {
 		s.failWrite--
 		if s.failWrite == 0 {
 			s.h.c.Fault("socket-write-error")
+			s.h.writeFailed = true
 			return errors.New("broken pipe")
 		}
 	}
@@ -131,6 +132,9 @@ type instance struct {
 	errorEnvs  int
 	updates    int
 	initialErr bool
+	// failedHard: a resolver of this instance returned context.Canceled, so
+	// the subscription ends itself (no envelope is sent for that)
+	failedHard bool
 }
 
 type logEvent struct {
@@ -165,6 +169,9 @@ type connHarness struct {
 	// ctxCancelled: the connection context was cancelled (subscriptions then
 	// end themselves with context.Canceled)
 	ctxCancelled bool
+	clientClosed bool
+	writeFailed  bool
+	loopErrors   map[int]int // error envelopes written by the read loop, by index of the message being handled
 }
 
 type recLogger struct{ h *connHarness }
@@ -203,7 +210,7 @@ func (l recLogger) Unsubscribe(ctx context.Context, id string) {
 		// being handled by the read loop right now, the subscription's own
 		// failure, or a cancelled connection context
 		byLoop := simrt.CurID() == h.s.loopTask
-		if !byLoop && !in.initialErr && !h.ctxCancelled {
+		if !byLoop && !in.initialErr && !in.failedHard && !h.ctxCancelled {
 			h.c.ViolateFor("C17,C02", "subscription-ended-without-cause", "instance %d (id %s) was closed (Unsubscribe logged by task %s) although nobody unsubscribed it, it did not fail and the connection is open", in.inst, in.id, simrt.CurName())
 		}
 		h.end(in, "unsubscribe-logged")
@@ -328,6 +335,9 @@ func (h *connHarness) onWrite(m *wireMsg) {
 		h.echoes[m.id]++
 	case "result":
 	case "error":
+		if m.byLoop {
+			h.loopErrors[h.s.readCalls-1]++
+		}
 		msg, _ := m.msg.(string)
 		okMsg := msg == "Internal server error" || strings.HasPrefix(msg, "safe-") ||
 			msg == "duplicate subscription" || msg == "too many subscriptions" || msg == "unknown message type"
@@ -420,6 +430,24 @@ func (h *connHarness) send(kind, id string, payload interface{}, in *instance) {
 
 func stripKeys(v interface{}) interface{} { return diff.StripKey(v) }
 
+// settleTasks: with the task-stall fault simulated time can pass while tasks
+// are runnable, so before end-of-run accounting let every runnable thunder
+// task finish what it is doing (bounded).
+func settleTasks() {
+	for i := 0; i < 2000; i++ {
+		busy := false
+		for _, t := range simrt.Alive() {
+			if (t.State == "ready" || t.State == "waiting") && (strings.HasPrefix(t.Name, "reactive.") || strings.HasPrefix(t.Name, "graphql.") || strings.HasPrefix(t.Name, "batch.")) {
+				busy = true
+			}
+		}
+		if !busy {
+			return
+		}
+		simrt.Sleep(time.Millisecond)
+	}
+}
+
 // expected evaluates the instance's query with the reference evaluator on the
 // current world, keys stripped, normalised through JSON.
 func (h *connHarness) expected(in *instance) (interface{}, bool) {
@@ -439,7 +467,12 @@ func (h *connHarness) expected(in *instance) (interface{}, bool) {
 func connBody(c *runner.Ctx) {
 	w := newWorld(c)
 	w.live = &liveState{w: w, trackers: map[string][]*liveRes{}, failNext: map[string]int{}, failKind: map[string]int{}}
-	h := &connHarness{c: c, w: w, live: map[string]*instance{}, echoes: map[string]int{}}
+	h := &connHarness{c: c, w: w, live: map[string]*instance{}, echoes: map[string]int{}, loopErrors: map[int]int{}}
+	w.live.onCanceled = func(inst int) {
+		if inst >= 0 && inst < len(h.instances) {
+			h.instances[inst].failedHard = true
+		}
+	}
 	h.faulty = c.Choose(2, "class") == 1
 	c.Class = "fault-free"
 	if h.faulty {
@@ -465,6 +498,9 @@ func connBody(c *runner.Ctx) {
 	minInterval := []time.Duration{50 * time.Millisecond, 5 * time.Second, 0}[c.Choose(3, "min-interval")]
 	spawn := c.Choose(2, "always-spawn") == 1
 	h.s = &sock{h: h, in: make(chan []byte), closed: make(chan struct{}), loopTask: -1, delayW: c.Choose(2, "socket-delays") == 1}
+	if h.faulty && c.Choose(4, "socket-write-fails") == 1 {
+		h.s.failWrite = 1 + c.Choose(12, "socket-write-fail-at")
+	}
 	ctx, cancelCtx := context.WithCancel(context.Background())
 	defer cancelCtx()
 	conn := graphql.CreateConnection(ctx, h.s, schema,
@@ -524,7 +560,7 @@ func connBody(c *runner.Ctx) {
 			h.instances = append(h.instances, in)
 			if h.faulty && c.Biased(4, 700, "initial-failure") > 0 {
 				// make one datum the query needs fail on its next invocation
-				h.armFailure(in, c.Choose(3, "failure-kind")+1, 1)
+				h.armFailure(in, c.Choose(4, "failure-kind")+1, 1)
 			}
 			desc = append(desc, fmt.Sprintf("subscribe(%s #%d)", id, in.inst))
 			c.Describe("instance %d id=%s: %s", in.inst, id, in.text)
@@ -553,8 +589,13 @@ func connBody(c *runner.Ctx) {
 			} else {
 				c.Fault("id-collision")
 			}
-			desc = append(desc, fmt.Sprintf("mutate(%s)", mid))
-			h.send("mutate", mid, map[string]interface{}{"query": "mutation { bump }", "variables": map[string]interface{}{}}, nil)
+			q := "mutation { bump }"
+			if h.faulty && c.Choose(3, "mutation-fails") == 1 {
+				q = fmt.Sprintf("mutation { fail(kind: %d) }", 1+c.Choose(3, "mutation-fail-kind"))
+				c.Fault("mutation-failure")
+			}
+			desc = append(desc, fmt.Sprintf("mutate(%s %s)", mid, q))
+			h.send("mutate", mid, map[string]interface{}{"query": q, "variables": map[string]interface{}{}}, nil)
 		case op < 10:
 			desc = append(desc, "echo")
 			h.send("echo", fmt.Sprintf("e%d", k), nil, nil)
@@ -584,11 +625,14 @@ func connBody(c *runner.Ctx) {
 		// the connection must still answer
 		h.send("echo", "final-echo", nil, nil)
 		simrt.Sleep(time.Second)
-		if h.echoes["final-echo"] != 1 {
+		if h.echoes["final-echo"] != 1 && !h.writeFailed {
 			c.ViolateFor("C15,C02", "connection-dead", "the connection did not answer an echo at quiescence (got %d replies)", h.echoes["final-echo"])
 		}
 		for _, in := range h.instances {
-			if !in.accepted || in.ended || in.initialErr {
+			if in.accepted && !in.ended && (in.initialErr || in.failedHard) {
+				c.ViolateFor("C16,C17,C02", "failed-subscription-not-closed", "instance %d (id %s) failed (%s) but is still registered 5 simulated minutes later: no Unsubscribe was logged, its id and its slot stay taken", in.inst, in.id, map[bool]string{true: "initial failure, error envelope sent", false: "a resolver returned context.Canceled"}[in.initialErr])
+			}
+			if !in.accepted || in.ended || in.initialErr || in.failedHard {
 				continue
 			}
 			want, ok := h.expected(in)
@@ -626,8 +670,10 @@ func connBody(c *runner.Ctx) {
 		cancelCtx()
 		simrt.Sleep(time.Duration(c.Choose(3, "cancel-gap")) * 100 * time.Millisecond)
 	}
+	h.clientClosed = true
 	h.s.Close()
 	simrt.Sleep(5 * time.Minute)
+	settleTasks()
 	h.lifecycleChecks()
 }
 
@@ -642,7 +688,30 @@ func (h *connHarness) sendGarbage(id string) {
 		[]byte(`[1,2,3]`),
 		[]byte(`{"id": "` + id + `", "type": "subscribe", "message": {"query": "{ as { id ", "variables": null}}`),
 	}
-	h.send("garbage", id, variants[h.c.Choose(len(variants), "garbage-kind")], nil)
+	k := h.c.Choose(len(variants), "garbage-kind")
+	idx := len(h.sent)
+	h.send("garbage", id, variants[k], nil)
+	if k == 0 || k == 6 {
+		return // the envelope itself does not parse: the server may drop the connection
+	}
+	// a well-formed envelope with bad content must be answered with an error
+	// envelope and the connection must keep working
+	go func() {
+		for h.processed <= idx && !h.served && !h.s.isClosed {
+			simrt.Sleep(time.Millisecond)
+		}
+		if h.processed <= idx {
+			// the read loop ended before asking for the next message: this is the
+			// message it stopped on only if it was read at all
+			if !h.clientClosed && h.s.failWrite == 0 && !h.writeFailed && h.s.readCalls == idx+1 {
+				h.c.ViolateFor("C15", "connection-dropped-on-bad-input", "the server dropped the connection instead of answering the malformed message %s", variants[k])
+			}
+			return
+		}
+		if h.loopErrors[idx] == 0 && !h.writeFailed {
+			h.c.ViolateFor("C15", "no-reply-to-bad-input", "the server did not answer the malformed message %s with an error envelope", variants[k])
+		}
+	}()
 }
 
 // armFailure makes the resolver of one datum needed by the instance's query
@@ -652,9 +721,18 @@ func (h *connHarness) armFailure(in *instance, kind, n int) {
 	if len(keys) == 0 {
 		return
 	}
+	l := h.w.live
+	// A computation reports the first error it records. A context.Canceled
+	// failure (kind 4) ends the subscription only if it is the error reported,
+	// so it is never armed together with another failure.
+	for k, left := range l.failNext {
+		if left > 0 && (kind == 4 || l.failKind[k] == 4) {
+			return
+		}
+	}
 	k := keys[h.c.Choose(len(keys), "failure-key")]
-	h.w.live.failNext[k] = n
-	h.w.live.failKind[k] = kind
+	l.failNext[k] = n
+	l.failKind[k] = kind
 }
 
 func (h *connHarness) armTransient() {
@@ -668,7 +746,7 @@ func (h *connHarness) armTransient() {
 		return
 	}
 	in := insts[h.c.Choose(len(insts), "transient-inst")]
-	h.armFailure(in, h.c.Choose(3, "failure-kind")+1, 1+h.c.Choose(2, "failure-count"))
+	h.armFailure(in, h.c.Choose(4, "failure-kind")+1, 1+h.c.Choose(2, "failure-count"))
 	h.c.Fault("transient-failure-armed")
 	// and make sure the datum is re-read
 	for k, n := range h.w.live.failNext {
